@@ -102,6 +102,10 @@ var splitClients = []splitClient{
 	{Name: "base-reserved", Kind: "base", Extras: []string{"__AUTH__", "__UNAUTH__"}},
 	{Name: "base-B-then-__AUTH__", Kind: "base", Extras: []string{"B", "__AUTH__"}},
 	{Name: "base-certpref", Kind: "base", Extras: []string{nodeenrollment.CertificatePreferenceV1Prefix + "zzz", "A"}},
+	// base-TLS clients whose protocol names share the library's name space without being one of its three prefixes
+	{Name: "base-namespace-lookalike-h2", Kind: "base", Extras: []string{"v1-nodee-healthcheck", "h2"}},
+	{Name: "base-bare-namespace-A", Kind: "base", Extras: []string{"v1-nodee-", "A"}},
+	{Name: "base-cut-short-authenticate-prefix", Kind: "base", Extras: []string{"v1-nodee-authenticate", "h2"}},
 	{Name: "fetch-only", Kind: "fetch", Extras: nil},
 	// fetch requests whose ClientHello lists other names in front of the request's entries
 	{Name: "fetch-after-A", Kind: "fetch-extras-first", Extras: []string{"A"}},
